@@ -81,14 +81,20 @@ PureDiagram ==
                LET a == E.alone[k]
                    j == CHOOSE i \in 1..n : P[i].T = a.T
                IN a.ok => (CSame(<<k, "p">>, P[j].p, a.p) /\ CSame(<<k, "rv">>, P[j].rv, a.rv) /\ CSame(<<k, "rl">>, P[j].rl, a.rl)))
-     \* C12: an initial value for the critical temperature changes neither the temperature grid nor the states
+     \* C12: an initial value for the critical temperature changes neither the temperature grid nor the states.  Points that do not converge are dropped by the
+     \* driver (fragile models drop different points with different warm-start chains - not a converged result, not judged): every state of the diagram
+     \* computed with the guess lies on the requested grid  Tmin + (Tc - Tmin) m / (n - 1), and where the diagram without guess has a state at the same
+     \* temperature the two agree
      /\ ((E.ok /\ Has(E, "guessed")) =>
            \A q \in 1..Len(E.guessed) :
-              LET gd == E.guessed[q] IN
-              gd.ok => Report("C12.diagram_independent_of_critical_temperature_guess", <<E.case, E.n, gd.f, Len(gd.T), n, l>>,
-                              /\ Len(gd.T) = n
-                              /\ \A k \in 1..n : /\ FClose(gd.T[k], P[k].T, "1e-6", FAbs(P[k].T), "0")
-                                                  /\ FClose(gd.p[k], P[k].p, "1e-4", FAbs(P[k].p), "0")))
+              LET gd == E.guessed[q]
+                  Tc == E.crit.T
+                  Tmin == FMul(E.Tmin_r, Tc)
+                  Grid(m) == FAdd(Tmin, FMul(FSub(Tc, Tmin), FOfRatio(m, E.n - 1)))
+                  OnGrid(T) == \E m \in 0..(E.n - 1) : FClose(T, Grid(m), "1e-6", FAbs(T), "0")
+                  Same(k) == \A j \in 1..n : FClose(gd.T[k], P[j].T, "1e-6", FAbs(P[j].T), "0") => FClose(gd.p[k], P[j].p, "1e-4", FAbs(P[j].p), "0")
+              IN gd.ok => Report("C12.diagram_independent_of_critical_temperature_guess", <<E.case, E.n, gd.f, Len(gd.T), n, l>>,
+                              \A k \in 1..Len(gd.T) : OnGrid(gd.T[k]) /\ Same(k)))
      /\ cnt' = BumpAll(cnt, {"pure_diagrams"} \cup (IF E.ok /\ n = E.n THEN {"pure_diagrams_complete"} ELSE {})
                             \cup (IF E.ok /\ Has(E, "guessed") THEN {"pure_diagrams_with_critical_temperature_guess"} ELSE {}))
   /\ UNCHANGED lastBubble
